@@ -144,7 +144,8 @@ fn slerp_ref<R: Real>(a: &[R], b: &[R], s: f64, th: f64, dth: f64, u: f64) -> (V
     // both forms bound the same rounding: K u (1 + |t1| + |t2|) + 4u args term by term, and K u / sin(theta) as the quantifier
     // states it (calibration: <= 5 u / sin(theta)); the smaller one is used
     let term = K * u * (1.0 + t1 + t2) + 4.0 * u * args;
-    let cond = K * u * (1.0 + 1.0 / th.sin().abs());
+    // (for s outside [0, 1] the arguments of the sines grow like |1-s| + |s|)
+    let cond = K * u * (1.0 + ((1.0 - s).abs() + s.abs()) / th.sin().abs());
     (r, 2.0 * dev + term.min(cond) * m)
 }
 
@@ -383,7 +384,7 @@ fn judge_vslerp_r<R: Real>(cx: &Cx, w: &[u64], got: &[f64; 4], t: &mut Tally) ->
         // direction error scales with the length; the length itself carries k2(3)+... a few u
         let tol = tol * lscale + K * u * lscale + lerr;
         let _ = t;
-        if err <= 0.75 * tol {
+        if err <= tol {
             Ok(err / tol)
         } else {
             Err(format!("main branch: expected {:?} (angle {:e}, s*angle {:e}, length {:e}) |err| {:e} > tol {:e}", fv(&r), th, s * th, lenf, err, tol))
@@ -442,7 +443,7 @@ fn judge_vslerp_r<R: Real>(cx: &Cx, w: &[u64], got: &[f64; 4], t: &mut Tally) ->
         } else {
             "slerp:main, acute"
         });
-        main(t).map(|r| ("slerp:main", r))
+        main(t).map(|r| (if PI - th < 0.05 { "slerp:main(within 0.05 of opposite)" } else if c < 0.0 { "slerp:main(obtuse)" } else { "slerp:main(acute)" }, r))
     } else {
         t.class(if c < 0.0 { "slerp:fallback opposite" } else { "slerp:fallback parallel" });
         fallback(t).map(|r| ("slerp:fallback", r))
@@ -832,10 +833,14 @@ fn judge_arc_r<R: Real>(cx: &Cx, w: &[u64], o: &ArcOut, t: &mut Tally) -> Result
         let lim = 2.0 * eps;
         let omc = 2.0 * (th / 2.0).sin().powi(2); // 1 - cos
         let opc = 2.0 * ((PI - th) / 2.0).sin().powi(2); // 1 + cos
-        let sing_certain = omc < lim - 8.0 * u || opc < lim - 8.0 * u;
-        let sing_possible = omc < lim + 8.0 * u || opc < lim + 8.0 * u;
+        // the computed dot differs from the true cosine by <= 3u (rounding of three products and two sums of a unit pair)
+        // + 2u (the operands are unit only to ~1u each): first-order worst case 5u, used with a margin as 6u
+        let sl = 6.0 * u;
+        let sing_certain = omc < lim - sl || opc < lim - sl;
+        let sing_possible = omc < lim + sl || opc < lim + sl;
         // inside the singular branches the result maps `from` to +-`from`: off by |from -+ to| <= sqrt(2 (2 eps + slack)); documented "about 0.001"
-        let tol_sing = 1.5 * (2.0 * (lim + 8.0 * u)).sqrt();
+        // (geometric worst case sqrt(2 (2 eps + 6u)), attained at the edge of the zone; doubled)
+        let tol_sing = 2.0 * (2.0 * (lim + sl)).sqrt();
         // first-order worst case of (cross, 1 + dot).normalize(): the computed dot carries 3u and the operands are unit only to
         // ~1u each, so w = 1 + dot is off by <= 5u and the rotation angle 2 atan2(|c|, w) by 10u/sin(theta); the cross product carries
         // 2u per lane (3.5u in norm), i.e. an axis error of 3.5u/sin(theta) that moves the image by twice that: 17u/sin(theta); doubled
